@@ -1,0 +1,22 @@
+//go:build verif
+// +build verif
+
+package authip
+
+import (
+	"path"
+
+	"github.com/cornelk/hashmap"
+)
+
+// VerifParseAuthIp runs the real parseAuthIp on confPath/confName.
+func VerifParseAuthIp(confPath, confName string) error {
+	a := &AuthIp{path: confPath, name: path.Join(confPath, confName)}
+	return a.parseAuthIp()
+}
+
+// VerifResetIpMap puts the package-level whitelist back to its zero state.
+func VerifResetIpMap() {
+	IpMap.enable = false
+	IpMap.HashMap = hashmap.HashMap{}
+}
